@@ -196,14 +196,13 @@ Example ex_disjoint_concrete :
   forallb (fun P => disjointb (locs (rebind P "k1")) (locs (rebind P "k2"))) stock_policies = true.
 Proof. vm_compute. reflexivity. Qed.
 
-(* the hypotheses of C14_frame are met by a history that registers the same class in both, updates both, and a
-   final update of the first; the operation really changes p's store *)
-Definition k1 := rebind debug "k1".
-Definition k2 := rebind debug "k2".
+(* the hypotheses of C14_frame are met by a history that registers in both, updates and sets a handler, then
+   updates the first again; that operation really changes the first policy's store
+   (short history: the store is a function, every read re-runs the history) *)
+Definition k1 := rebind release "k1".
+Definition k2 := rebind release "k2".
 Definition bump (k : op_kind) (p : policy) : op := mk_op k p (fun vs _ => S (list_sum vs)).
-Definition ex_history : list op :=
-  [bump RegisterClass k1; bump RegisterClass k2; bump RegisterMethod k1; bump RegisterDefinition k2; bump Update k1;
-   bump Update k2; bump SetErrorHandler k2; bump Call k2].
+Definition ex_history : list op := [bump RegisterClass k1; bump Update k2; bump SetErrorHandler k2].
 Example ex_frame_nonvacuous :
   proj k2 (run (ex_history ++ [bump Update k1]) (fun _ => 0)) = proj k2 (run ex_history (fun _ => 0)) /\
   proj k1 (run (ex_history ++ [bump Update k1]) (fun _ => 0)) <> proj k1 (run ex_history (fun _ => 0)) /\
@@ -212,7 +211,7 @@ Proof. vm_compute. repeat split; discriminate. Qed.
 
 Example ex_interleaving_hypothesis :
   forallb (fun o => same_policy (op_pol o) k2 || disjointb (locs (op_pol o)) (locs k2)) ex_history = true /\
-  length (filter (on k2) ex_history) = 5.
+  length (filter (on k2) ex_history) = 2.
 Proof. vm_compute. split; reflexivity. Qed.
 
 (* the driver's policies (harness/h1/policies.inc), built the same way *)
